@@ -380,6 +380,13 @@ class Machine:
         is_prop = isinstance(cur, property)
         target = cur.fget if is_prop else cur
         params = ("self",) if is_prop else ("t",)
+        ck0 = _ck.find_checker(target)
+        if role == "pre" and ck0 is not None and len(ck0.__preconditions__) > 1:
+            # The documented helper behind the decorator accepts at most one precondition group ("the preconditions are
+            # merged only in the DBC metaclass"); the library guards this with an assert, i.e. only in non-optimised mode.
+            # Decorating such a member again is outside the documented use, so the step is skipped (counted as a probe).
+            self.skipped_late = getattr(self, "skipped_late", 0) + 1
+            return None
         n = len([s for s in self.world.contracts if s.startswith("%s/%s" % (unit, role))])
         sid = "%s/%s%d" % (unit, role, n + 10)
         if role == "pre":
